@@ -1,11 +1,12 @@
+\* necessity: a full inner node that lends its first child loses its last one - the invariants must fail
 \* every tree reachable over 9 keys with 2 separators per node (three levels), every insertion and removal from it
 CONSTANTS
   ORDER = 2
-  NK = 9
+  NK = 11
   KeepHist = FALSE
   GrowLen = 0
   AscSizes = {}
-  Mut = {}
+  Mut = {"lend_drops_last_child"}
   BatchPct = 0
   GenLen = 0
 SPECIFICATION Spec
